@@ -77,6 +77,44 @@ def h_basis(cx, p, kv, symk=False, ge=True):
     cx.eq('basis_functions', H.basis_functions(p, K, [s_lin], [u]), [N])
 
 
+def h_basis_kscaled(cx, p, kv):
+    """the whole knot vector multiplied by ONE symbolic factor alpha > 0 of any size (spans of width 1e-9 as well as
+    1e9): basis functions depend on ratios of knot differences only.  (Span search by bisection and the multiplicity
+    count use absolute tolerances by design and are not part of this harness.)"""
+    H = geo.M('helpers')
+    alpha = cx.real('alpha', lo=0)
+    cx.assume(alpha > 0)
+    n = len(kv) - p - 1
+    K0 = cx.consts(kv)
+    K = [alpha * k for k in K0]
+    t = cx.real('t', lo=K0[p], hi=K0[n], param=True)
+    cx.snap(t, K0)
+    u = alpha * t
+    s_lin = H.find_span_linear(p, K, n, u)
+    k = oracles.span_of(p, K0, t, cx)
+    cx.check('span==definition', s_lin == k, 'find_span_linear %s, definition %s' % (s_lin, k))
+    N = H.basis_function(p, K, s_lin, u)
+    ref = oracles.all_basis_def(p, K0, t, cx)          # invariant under the scaling
+    tot = 0
+    for j in range(p + 1):
+        i = s_lin - p + j
+        cx.eq('N==CoxDeBoor[%d]' % j, N[j], ref[i] if 0 <= i < n else 0)
+        cx.eq('N==basis_function_one[%d]' % j, N[j], H.basis_function_one(p, K, i, u))
+        tot = tot + N[j]
+    cx.eq('partition_of_unity', tot, 1)
+    allN = H.basis_function_all(p, K, s_lin, u)
+    for j in range(p + 1):
+        cx.eq('N==basis_function_all[%d]' % j, allN[j][p], N[j])
+    ders = H.basis_function_ders(p, K, s_lin, u, min(p, 2))
+    for j in range(p + 1):
+        cx.eq('ders0==N[%d]' % j, ders[0][j], N[j])
+    for d in range(1, min(p, 2) + 1):
+        tot_d = 0
+        for j in range(p + 1):
+            tot_d = tot_d + ders[d][j]
+        cx.eq('ders%d_sum_to_zero' % d, tot_d, 0)
+
+
 def h_ders(cx, p, kv, symk=False):
     H = geo.M('helpers')
     K = _knots(cx, kv, symk)
@@ -221,6 +259,9 @@ def instances(tier):
     for p, m in symk:
         out.append(inst('basis p%d m%s symknots' % (p, m), h_basis, timeout=600, min_paths=len(m) + 1, p=p, kv=fam.pattern(p, m), symk=True, ge=(p <= 2)))
         out.append(inst('ders p%d m%s symknots' % (p, m), h_ders, timeout=600, min_paths=len(m) + 1, p=p, kv=fam.pattern(p, m), symk=True))
+    for p in ((1, 2, 3) if quick else (1, 2, 3, 4)):
+        for m in sorted(set([(1,), (1, 1), (p, 1)])):
+            out.append(inst('basis p%d m%s knots times a symbolic factor' % (p, m), h_basis_kscaled, timeout=600, min_paths=2, p=p, kv=fam.pattern(p, m)))
     for p in range(1, 8):
         for n in range(p + 1, p + (6 if quick else 9)):
             for clamped in (True, False):
